@@ -97,3 +97,23 @@ Check load_keeps_event_log :
   forall (sp : ssite -> bool) (ssw : save_switches) (w : world) (j : json),
     w_events (snd (load_state sp ssw w j)) = w_events w.
 Print Assumptions load_keeps_event_log.
+
+(* ---------------- a bound function that is actually called is called exactly once ----------------
+   with the arguments in push order and the current line count; whatever becomes of the returned value *)
+From Ink.Shell Require Import ExternalOnce.
+Theorem bound_external_called_exactly_once :
+  forall (I : iface) (name : text) (nargs : Z) (w : world) def vs rest,
+    assoc name (w_externals w) = Some def ->
+    (ex_safe def = true \/ (in_string_evaluation (w_state w) = false /\ w_snapshot w = None)) ->
+    ss_eval (w_state w) = rest ++ map OVal vs -> length vs = Z.to_nat nargs ->
+    exists o w', call_external_function I sw_now name nargs w = (o, w')
+                 /\ w_events w' = w_events w ++ [EvExt name vs (w_lines w)].
+Proof. exact ExternalOnce.bound_external_called_exactly_once. Qed.
+Check bound_external_called_exactly_once :
+  forall (I : iface) (name : text) (nargs : Z) (w : world) def vs rest,
+    assoc name (w_externals w) = Some def ->
+    (ex_safe def = true \/ (in_string_evaluation (w_state w) = false /\ w_snapshot w = None)) ->
+    ss_eval (w_state w) = rest ++ map OVal vs -> length vs = Z.to_nat nargs ->
+    exists o w', call_external_function I sw_now name nargs w = (o, w')
+                 /\ w_events w' = w_events w ++ [EvExt name vs (w_lines w)].
+Print Assumptions bound_external_called_exactly_once.
